@@ -134,6 +134,13 @@ func scenarioC04(c *hlib.RunCtx) *hlib.Violation {
 
 	nprocs := 2 + t.Draw(3)
 	pool := namePool(t, 2+t.Draw(6), false)
+	// In a third of the runs enough long names to fill the first page, so that
+	// the processes extend the file and re-map after each other's growth.
+	if t.Bool(1, 3) {
+		for i := 0; i < 4; i++ {
+			pool = append(pool, longName(fmt.Sprintf("F%d/", i), 3500+t.Draw(500)))
+		}
+	}
 	maxOps := 5
 	if thorough {
 		maxOps = 12
